@@ -26,7 +26,7 @@ DEFAULT_SEED = 1313
 RUNS = {"quick": 1500, "thorough": 90000}
 JOBS = {"quick": 8, "thorough": 16}
 SEARCH_SPACE = "world states x group/variable selections (lists, switched-off groups, per-group variable lists incl. component subsets) x optional-file presence configurations (no faults)"
-RULE = ("one run = one world (mesh with hydro/grav/rt, particles, sinks) + one selection, loaded by two fresh datasets (full, selective); "
+RULE = ("one run = one world (mesh with hydro/grav/rt, particles, sinks) + one selection, loaded by two fresh datasets (full, selective; 25%: the select object was used by an earlier load); "
         "distinct = hash of (world, selection, removed files); non-trivial = the selection skips at least one variable or group that the "
         "full load reads while still reading at least one, in a world with >= 2 levels")
 ASSUMPTIONS = [
